@@ -151,11 +151,17 @@ def run_case(part, info, annexed, label, rnd, nsteps, replay_base,
         replay_base = dict(replay_base, invoke_index=idx, steps=hist)
     try:
         text = str(psy.gen)
-    except PSycloneError as err:
+    except (PSycloneError, NotImplementedError) as err:
+        # deliberate refusals at code-generation time (e.g. an OpenMP region
+        # with children of different types)
         part.count("generation_refused")
         return
     except Exception as err:      # pylint: disable=broad-except
         part.count("generation_crash:" + type(err).__name__)
+        if os.environ.get("VF_C22_DEBUG"):
+            import traceback
+            traceback.print_exc()
+            print([drv.step_str(s) for s in hist], label)
         return
     if mutate is not None:
         text = mutate(text)
@@ -255,11 +261,11 @@ def main(ctx):
     must = sorted(set(must))
     rest = [f for f in files if f not in must]
     rnd.shuffle(rest)
-    nrest = 40 if ctx.quick else len(rest)
+    nrest = 8 if ctx.quick else len(rest)
     chosen = must + rest[:nrest]
     selftest = bool(os.environ.get("VF_C22_SELFTEST"))
-    ngen = 10 if ctx.quick else 80
-    nh = 2 if ctx.quick else 8
+    ngen = 3 if ctx.quick else 40
+    nh = 4 if ctx.quick else 12
     nchunks = 16 if ctx.quick else 32
     jobs = []
     for annexed in (False, True):
